@@ -55,6 +55,10 @@ type ScopeCfg struct {
 // GenScopeWS builds a workspace of valid programs with shadowing, closures and cross-file globals.
 // Text is plain ASCII, LF, no string/numeral zoo: column bookkeeping is C04's business, not C05's.
 func GenScopeWS(r *Rng, sc ScopeCfg) *ScopeWS {
+	if sc.JoinPct < 0 {
+		// drawn from a separate stream so that the rest of the workspace does not depend on it
+		sc.JoinPct = []int{0, 0, 0, 60}[r.Fork(0x6a6f696e).Intn(4)]
+	}
 	if sc.NFiles == 0 {
 		sc.NFiles = r.Range(2, 4)
 	}
